@@ -16,10 +16,19 @@ EXTENDS Integers, Sequences, FiniteSets, TLC, Json
 
 CONSTANTS MaxHist, Inits, MutParams, ObsKinds
 
-VARIABLES cfg,     \* [Params -> value id]: what a scene built from scratch would be given
-          cache,   \* [Caches -> <<>> or <<projection of cfg it was computed from>>]
-          hist
-vars == <<cfg, cache, hist>>
+VARIABLES
+  \* [Params -> value id]: what a scene built from scratch would be given
+  \* @type: Str -> Int;
+  cfg,
+  \* [Caches -> BOOLEAN]: is the piece of derived state currently held (computed and not invalidated since)
+  \* @type: Str -> Bool;
+  filled,
+  \* [Caches -> projection of the configuration it was computed from] (all zero while not held)
+  \* @type: Str -> (Str -> Int);
+  at,
+  \* @type: Seq({op: Str, p: Str, v: Int, via: Str, fired: Set(Str), ops: Set(Str), k: Str, observed: Bool});
+  hist
+vars == <<cfg, filled, at, hist>>
 
 ModelParams == {"P_models", "B_models", "L_models"}
 Params == {"P_bfield", "P_edist", "P_comp", "P_adata", "P_geom", "P_geomT", "P_integ", "P_models", "P_xf", "P_parent", "N_xf",
@@ -31,22 +40,24 @@ Params == {"P_bfield", "P_edist", "P_comp", "P_adata", "P_geom", "P_geomT", "P_i
 Repoint == {"B_plasma", "L_plasma"}
 Values(p) == IF p \in ModelParams THEN 1..3 ELSE IF p \in Repoint THEN {1} ELSE 1..2      \* model lists: two different lists and the empty list (3)
 
-\* placement of plasma / beam relative to the world (ancestor transform matters only under the node)
-PlasmaPlace(c) == <<c["P_xf"], c["P_parent"], IF c["P_parent"] = 2 THEN c["N_xf"] ELSE 0>>
-BeamPlace(c)   == <<c["B_xf"], c["B_parent"], IF c["B_parent"] = 2 THEN c["N_xf"] ELSE 0>>
 
 Caches == {"pm", "pmat", "att", "bm", "bgeom", "lseg", "lmat"}
-\* what each piece of derived state is a function of
-Proj(k, c) ==
-  CASE k = "pm"    -> <<c["P_comp"], c["P_adata"], c["P_models"]>>                       \* species, rates, wavelengths, line shapes of plasma models
-    [] k = "pmat"  -> <<c["P_models"], c["P_adata"], c["P_integ"], c["P_geom"], c["P_geomT"]>>   \* attached primitive + PlasmaMaterial
-    [] k = "att"   -> <<BeamPlace(c), PlasmaPlace(c), c["B_length"], c["A_step"], c["B_att"], c["B_energy"], c["B_power"],
-                        c["B_element"], c["B_divx"], c["B_divy"], c["P_comp"], c["B_adata"]>>      \* SingleRayAttenuator._density/_stopping_data
-    [] k = "bm"    -> <<c["P_comp"], c["B_adata"], c["B_element"], c["B_models"], c["M_cxline"]>>  \* beam model caches
-    [] k = "bgeom" -> <<c["B_length"], c["B_sigma"], c["B_divx"], c["B_divy"], c["A_clampSigma"], c["B_models"], c["B_integ"], c["B_adata"]>>
-    [] k = "lseg"  -> <<c["L_profile"], c["LP_length"], c["LP_radius"]>>                  \* laser segment primitives
-    [] k = "lmat"  -> <<c["L_models"], c["L_spectrum"], c["L_profile"], c["LP_length"], c["LP_radius"], c["L_integ"], c["L_importance"],
-                        c["L_xf"], PlasmaPlace(c)>>                                       \* LaserMaterial per segment (caches transforms)
+\* what each piece of derived state is a function of: the parameters it reads (the ancestor transform only under the node)
+PlasmaPlaceP(c) == {"P_xf", "P_parent"} \cup (IF c["P_parent"] = 2 THEN {"N_xf"} ELSE {})
+BeamPlaceP(c)   == {"B_xf", "B_parent"} \cup (IF c["B_parent"] = 2 THEN {"N_xf"} ELSE {})
+DepP(k, c) ==
+  CASE k = "pm"    -> {"P_comp", "P_adata", "P_models"}                                  \* species, rates, wavelengths, line shapes of plasma models
+    [] k = "pmat"  -> {"P_models", "P_adata", "P_integ", "P_geom", "P_geomT"}             \* attached primitive + PlasmaMaterial
+    [] k = "att"   -> BeamPlaceP(c) \cup PlasmaPlaceP(c) \cup {"B_length", "A_step", "B_att", "B_energy", "B_power",
+                        "B_element", "B_divx", "B_divy", "P_comp", "B_adata"}            \* SingleRayAttenuator._density/_stopping_data
+    [] k = "bm"    -> {"P_comp", "B_adata", "B_element", "B_models", "M_cxline"}          \* beam model caches
+    [] k = "bgeom" -> {"B_length", "B_sigma", "B_divx", "B_divy", "A_clampSigma", "B_models", "B_integ", "B_adata"}
+    [] k = "lseg"  -> {"L_profile", "LP_length", "LP_radius"}                            \* laser segment primitives
+    [] k = "lmat"  -> {"L_models", "L_spectrum", "L_profile", "LP_length", "LP_radius", "L_integ", "L_importance",
+                        "L_xf"} \cup PlasmaPlaceP(c)                                     \* LaserMaterial per segment (caches transforms)
+\* the projection of configuration c a piece of derived state is computed from (other parameters masked to 0)
+Proj(k, c) == [p \in Params |-> IF p \in DepP(k, c) THEN c[p] ELSE 0]
+Zero == [p \in Params |-> 0]
 Eager == {"pmat", "bgeom", "lseg", "lmat"}      \* rebuilt inside the setter; the others are filled by the next observation
 
 Notifiers == {"plasma", "comp", "pmodels", "beam", "bmodels", "att", "profile"}
@@ -114,13 +125,18 @@ CallbackNames(n, c) ==
 \* callbacks that must be notified when parameter p is set (c = configuration after the assignment)
 Required(p, c) == UNION {CallbackNames(n, c) : n \in Close(Fires(p, c))}
 
-Fresh(c)    == [k \in Caches |-> IF k \in Eager THEN <<Proj(k, c)>> ELSE <<>>]
-Observed(c) == [k \in Caches |-> <<Proj(k, c)>>]
+FreshFilled    == [k \in Caches |-> k \in Eager]
+ObservedFilled == [k \in Caches |-> TRUE]
+AtFor(fl, c)   == [k \in Caches |-> IF fl[k] THEN Proj(k, c) ELSE Zero]
+\* history entries are records with a fixed set of fields (unused ones keep their defaults)
+\* @type: () => {op: Str, p: Str, v: Int, via: Str, fired: Set(Str), ops: Set(Str), k: Str, observed: Bool};
+E0 == [op |-> "", p |-> "", v |-> 0, via |-> "", fired |-> {}, ops |-> {}, k |-> "", observed |-> FALSE]
 AllOnes == [p \in Params |-> 1]
 
 Init == /\ cfg = AllOnes
-        /\ \E i \in Inits : cache = IF i = "fresh" THEN Fresh(cfg) ELSE Observed(cfg)
-        /\ hist = <<[op |-> "init", observed |-> cache["att"] # <<>>]>>
+        /\ \E i \in Inits : filled = IF i = "fresh" THEN FreshFilled ELSE ObservedFilled
+        /\ at = AtFor(filled, cfg)
+        /\ hist = <<[E0 EXCEPT !.op = "init", !.observed = filled["att"]]>>
 
 Log(e) == hist' = Append(hist, e)
 
@@ -133,13 +149,16 @@ Vias(p) == IF p \in {"P_models", "B_models"} THEN {"assign", "set", "clear_add"}
            ELSE IF p = "P_comp" THEN {"set", "clear_add", "add"} ELSE {"assign"}
 NoOpWhenSame == {"P_parent", "B_parent"}
 IsNoOp(p, v) == p \in NoOpWhenSame /\ cfg[p] = v
-Set(p, v, via) ==
+SetCore(p, v) ==
     /\ cfg' = [cfg EXCEPT ![p] = v]
-    /\ cache' = IF IsNoOp(p, v) THEN cache
-                ELSE [k \in Caches |-> IF k \in Rebuilt(p, cfg') THEN <<Proj(k, cfg')>>
-                                       ELSE IF k \in Cleared(p, cfg') THEN <<>> ELSE cache[k]]
-    /\ Log([op |-> "set", p |-> p, v |-> v, via |-> via, fired |-> IF IsNoOp(p, v) THEN {} ELSE Close(Fires(p, cfg')),
-            ops |-> IF IsNoOp(p, v) THEN {} ELSE OpsRun(p, cfg')])
+    /\ filled' = IF IsNoOp(p, v) THEN filled
+                 ELSE [k \in Caches |-> IF k \in Rebuilt(p, cfg') THEN TRUE ELSE IF k \in Cleared(p, cfg') THEN FALSE ELSE filled[k]]
+    /\ at' = IF IsNoOp(p, v) THEN at
+             ELSE [k \in Caches |-> IF k \in Rebuilt(p, cfg') THEN Proj(k, cfg') ELSE IF k \in Cleared(p, cfg') THEN Zero ELSE at[k]]
+Set(p, v, via) ==
+    /\ SetCore(p, v)
+    /\ Log([E0 EXCEPT !.op = "set", !.p = p, !.v = v, !.via = via, !.fired = IF IsNoOp(p, v) THEN {} ELSE Close(Fires(p, cfg')),
+                      !.ops = IF IsNoOp(p, v) THEN {} ELSE OpsRun(p, cfg')])
 
 \* an observation fills the lazily computed state it needs from the *current* configuration
 Touches(k) == CASE k = "plasma_ray" -> {"pm"}
@@ -147,10 +166,13 @@ Touches(k) == CASE k = "plasma_ray" -> {"pm"}
                 [] k = "laser_ray" -> {"pm", "bm", "att"}
                 [] k = "beam_density" -> {"att"}
                 [] OTHER -> {}
-Observe(k) ==
-    /\ cache' = [c \in Caches |-> IF c \in Touches(k) /\ cache[c] = <<>> THEN <<Proj(c, cfg)>> ELSE cache[c]]
+ObserveCore(k) ==
+    /\ filled' = [c \in Caches |-> filled[c] \/ c \in Touches(k)]
+    /\ at' = [c \in Caches |-> IF c \in Touches(k) /\ ~filled[c] THEN Proj(c, cfg) ELSE at[c]]
     /\ UNCHANGED cfg
-    /\ Log([op |-> "observe", k |-> k])
+Observe(k) ==
+    /\ ObserveCore(k)
+    /\ Log([E0 EXCEPT !.op = "observe", !.k = k])
 
 NextStep == \/ \E p \in MutParams : \E v \in Values(p) : \E via \in Vias(p) : Set(p, v, via)
             \/ \E k \in ObsKinds : Observe(k)
@@ -159,11 +181,14 @@ Spec == Init /\ [][Next]_vars
 
 \* C01 on the model: whatever is cached was computed from the configuration we are in now,
 \* hence every observation is a function of the final configuration only
-NoStale == \A k \in Caches : cache[k] # <<>> => cache[k][1] = Proj(k, cfg)
-EagerFilled == \A k \in Eager : cache[k] # <<>>
+NoStale == \A k \in Caches : filled[k] => at[k] = Proj(k, cfg)
+EagerFilled == \A k \in Eager : filled[k]
+\* together with the shape of the state these two are inductive: checked for histories of any length with Apalache (MC_Scene.tla)
+Shape == DOMAIN cfg = Params /\ DOMAIN filled = Caches /\ DOMAIN at = Caches /\ \A k \in Caches : DOMAIN at[k] = Params
+IndInv == Shape /\ NoStale /\ EagerFilled /\ (\A p \in Params : cfg[p] \in Values(p)) /\ (\A k \in Caches : ~filled[k] => at[k] = Zero)
 \* observations never change the configuration (action property)
 ObserveIsPure == [][hist'[Len(hist')].op = "observe" => cfg' = cfg]_vars
 
-View == <<cfg, cache>>
+View == <<cfg, filled, at>>
 Emit == PrintT(ToJson([h |-> hist', cfg |-> cfg']))
 =============================================================================
